@@ -497,7 +497,16 @@ class FnEmitter:
     def sub(self, n, i=0): return self.e(n['inner'][i])
 
     def e_ParenExpr(self, n): return '(' + self.sub(n) + ')'
-    def e_ConstantExpr(self, n): return self.sub(n)
+    def e_ConstantExpr(self, n):
+        # a constant expression clang has already evaluated (case labels, constexpr initialisers): use its value
+        v = n.get('value')
+        if v is not None and re.match(r'^-?\d+$', str(v)):
+            try:
+                ct = self.T.c(self.T.strip_cv(self.ty(n)))
+                if ct in ('uint8_t', 'uint16_t', 'uint32_t', 'uint64_t', 'int8_t', 'int16_t', 'int32_t', 'int64_t', 'int', 'size_t', '_Bool', 'char') or re.match(r'^[A-Za-z_]\w*$', ct) and self.T.strip_cv(self.T.desugar(self.ty(n))) in self.ctx.enums:
+                    return f"(({ct})({v}))"
+            except Unsupported: pass
+        return self.sub(n)
     def e_ExprWithCleanups(self, n): return self.sub(n)
     def e_CXXBindTemporaryExpr(self, n): return self.sub(n)
 
@@ -957,7 +966,14 @@ class FnEmitter:
         if v['kind'] in ('UsingDecl', 'StaticAssertDecl'): return []      # compile-time only
         if v['kind'] != 'VarDecl': raise Unsupported('decl ' + v['kind'])
         if v.get('storageClass') == 'static' or v.get('tls'):
-            raise Unsupported('function-local static variable ' + v.get('name', ''))
+            if v.get('constexpr') or tstr(v['type']).startswith('const '):
+                pass      # a constant: an ordinary (re-initialised) local has the same meaning
+            else:
+                # state that survives the call.  Emitted as a C static local WITHOUT its initialiser: DFCC gives every static an arbitrary value at the start of a
+                # contract check (= any history of earlier calls, a superset of the C++ semantics); a write to it must be allowed by the assigns clause (C19).
+                q0 = tstr(v['type']); self.tu.byid[v['id']] = v
+                if self.T.is_ref(q0): raise Unsupported('function-local static reference ' + v.get('name', ''))
+                return [p + '/* function-local static (thread_local) variable: state shared by all calls */', p + 'static ' + self.T.decl(self.T.strip_cv(q0), v['name']) + ';']
         q = tstr(v['type']); name = v['name']
         self.tu.byid[v['id']] = v
         if self.T.std_model(self.T.strip_cv(norm_std(q))) == 'struct map_it': self.it_locals.append(name)
